@@ -13,6 +13,116 @@ from . import c03, c17
 from .c20 import _gram_equals_M
 
 
+def _fit_view(repo):
+  """_BaseSCML._fit under canonical role names (discovered by definition and
+  use): best_w = the weights handed to _components_from_basis_weights; w =
+  what best_w is assigned; (obj, best_obj) = the pair compared where best_w
+  is assigned; iter = the main loop variable; scale_f / avg_grad_w = the
+  factors of w's update; ada_grad_w, delta = the names in scale_f's
+  denominator (delta: bound to a constant); grad_w = the increment of the
+  running average; dist_diff = result of _compute_dist_diff; rand_int / idx
+  = the batch index table and its row; slack_val / slack_mask."""
+  f0 = repo.get_func('scml._BaseSCML._fit')
+  roles = {}
+  names = lambda e: [x.id for x in ast.walk(e) if isinstance(x, ast.Name)]
+  fin = [n for n in ast.walk(f0.node) if isinstance(n, ast.Assign) and
+         ast.unparse(n.targets[0]) == 'self.components_']
+  if fin and isinstance(fin[-1].value, ast.Call) and \
+          len(fin[-1].value.args) >= 2 and \
+          isinstance(fin[-1].value.args[1], ast.Name):
+    roles[fin[-1].value.args[1].id] = 'best_w'
+  bw = next((k for k, v in roles.items() if v == 'best_w'), None)
+  pm = astutil.parents(f0.node)
+  for (n, v) in guards.assignments(f0.node, bw or '?'):
+    if isinstance(v, ast.Name):
+      roles[v.id] = 'w'
+      blk = pm.get(n)
+      if isinstance(blk, ast.If) and isinstance(blk.test, ast.Compare) and \
+              isinstance(blk.test.left, ast.Name) and \
+              isinstance(blk.test.comparators[0], ast.Name):
+        a, b = blk.test.left.id, blk.test.comparators[0].id
+        if isinstance(blk.test.ops[0], (ast.Gt, ast.GtE)):
+          a, b = b, a
+        roles[a], roles[b] = 'obj', 'best_obj'
+  wn = next((k for k, v in roles.items() if v == 'w'), None)
+  loops = [n for n in ast.walk(f0.node) if isinstance(n, ast.For) and
+           ast.unparse(n.iter) == 'range(self.max_iter)' and
+           isinstance(n.target, ast.Name)]
+  if len(loops) == 1:
+    roles[loops[0].target.id] = 'iter'
+    it = loops[0].target.id
+    body = loops[0].body
+    for s_ in body:
+      if isinstance(s_, ast.Assign) and isinstance(s_.targets[0], ast.Name) \
+              and s_.targets[0].id == wn and isinstance(s_.value, ast.BinOp) \
+              and isinstance(s_.value.op, ast.Mult):
+        for side in (s_.value.left, s_.value.right):
+          if isinstance(side, ast.Name):
+            roles[side.id] = 'scale_f'
+          elif isinstance(side, ast.Call) and side.args:
+            nm = [x for x in names(side.args[0]) if x not in ('self', 'np')]
+            if len(nm) == 1:
+              roles[nm[0]] = 'avg_grad_w'
+    sf = next((k for k, v in roles.items() if v == 'scale_f'), None)
+    av = next((k for k, v in roles.items() if v == 'avg_grad_w'), None)
+    consts = set(n.targets[0].id for n in ast.walk(f0.node)
+                 if isinstance(n, ast.Assign) and
+                 isinstance(n.targets[0], ast.Name) and
+                 isinstance(n.value, ast.Constant))
+    for s_ in body:
+      if isinstance(s_, ast.Assign) and isinstance(s_.targets[0], ast.Name):
+        t_ = s_.targets[0].id
+        nm = [x for x in names(s_.value) if x not in ('self', 'np', it)]
+        if t_ == sf:
+          for x in nm:
+            roles[x] = 'delta' if x in consts else 'ada_grad_w'
+        elif t_ == av:
+          for x in nm:
+            if x != av:
+              roles[x] = 'grad_w'
+        elif isinstance(s_.value, ast.Subscript) and \
+                ast.unparse(s_.value.slice) == it and \
+                isinstance(s_.value.value, ast.Name):
+          roles[t_] = 'idx'
+          roles[s_.value.value.id] = 'rand_int'
+  for n in ast.walk(f0.node):
+    if isinstance(n, ast.Assign) and isinstance(n.targets[0], ast.Name) and \
+            isinstance(n.value, ast.Call) and \
+            ast.unparse(n.value.func) == 'self._compute_dist_diff':
+      roles[n.targets[0].id] = 'dist_diff'
+  dd = next((k for k, v in roles.items() if v == 'dist_diff'), None)
+  if len(loops) == 1:
+    for s_ in ast.walk(loops[0]):
+      if isinstance(s_, ast.Assign) and isinstance(s_.targets[0], ast.Name):
+        nm = names(s_.value)
+        t_ = s_.targets[0].id
+        if dd in nm and wn in nm and 'matmul' in ast.unparse(s_.value) or \
+                (dd in nm and wn in nm and '.dot(' in ast.unparse(s_.value)):
+          roles[t_] = 'slack_val'
+    sv = next((k for k, v in roles.items() if v == 'slack_val'), None)
+    for s_ in ast.walk(loops[0]):
+      if isinstance(s_, ast.Assign) and isinstance(s_.targets[0], ast.Name) \
+              and sv and any(isinstance(c_, ast.Compare) and
+                             ast.unparse(c_.left) == sv
+                             for c_ in ast.walk(s_.value)):
+        roles[s_.targets[0].id] = 'slack_mask'
+  return f0, astutil.role_view(f0, roles)
+
+
+def _cbw_view(repo):
+  """_components_from_basis_weights: active_idx = the index of the active
+  weights (unpacked from `w > 0`); (n_basis, n_features) = basis.shape."""
+  f0 = repo.get_func('scml._BaseSCML._components_from_basis_weights')
+  roles = {}
+  for n in ast.walk(f0.node):
+    if isinstance(n, ast.Assign) and isinstance(n.targets[0], ast.Tuple) and \
+            len(n.targets[0].elts) == 1 and \
+            isinstance(n.targets[0].elts[0], ast.Name) and \
+            isinstance(n.value, ast.Compare):
+      roles[n.targets[0].elts[0].id] = 'active_idx'
+  return f0, astutil.role_view(f0, roles)
+
+
 def rule_weights_nonneg(repo, rep):
   R = 'SIGN:scml-weights-nonnegative'
   rep.rule(R, 'every assignment to the weight vector in _BaseSCML._fit has a '
@@ -21,8 +131,8 @@ def rule_weights_nonneg(repo, rep):
            'multiplied by np.minimum(., 0) <= 0')
   rep.assume('SCML hyper-parameter range from the property: gamma > 0, '
              'max_iter >= output_iter >= 1')
-  f = repo.get_func('scml._BaseSCML._fit')
-  rep.analysed(f)
+  f0, f = _fit_view(repo)
+  rep.analysed(f0)
   fin = [n for n in ast.walk(f.node) if isinstance(n, ast.Assign) and
          ast.unparse(n.targets[0]) == 'self.components_']
   if not fin or not isinstance(fin[-1].value, ast.Call) or \
@@ -106,8 +216,8 @@ def rule_components_form(repo, rep):
            'L^T L = B^T Diag(w) B over the active rows (low-rank: '
            'L = Diag(sqrt(w)) B with a warning; full rank: '
            'components_from_metric(B^T Diag(w) B))')
-  f = repo.get_func('scml._BaseSCML._components_from_basis_weights')
-  rep.analysed(f)
+  f0, f = _cbw_view(repo)
+  rep.analysed(f0)
   c = repo.get_class('SCML')
   Poly.ORTHO.clear()
   dom = AlgDomain()
@@ -168,7 +278,7 @@ def rule_low_rank_condition(repo, rep):
            'when there are fewer active bases than features (n_basis < '
            'n_features with n_basis, n_features = basis.shape of the active '
            'rows): components_ never has more rows than features')
-  f = repo.get_func('scml._BaseSCML._components_from_basis_weights')
+  _f0, f = _cbw_view(repo)
   shp = [n for n in ast.walk(f.node) if isinstance(n, ast.Assign) and
          ast.unparse(n.value) == 'basis.shape' and
          isinstance(n.targets[0], ast.Tuple) and len(n.targets[0].elts) == 2]
@@ -197,8 +307,14 @@ def rule_lda_normalised(repo, rep):
   R = 'R-FLOW:scml-lda-bases-normalised'
   rep.rule(R, 'every row block written into the LDA basis passed through '
            'sklearn.preprocessing.normalize')
-  f = repo.get_func('scml.SCML_Supervised._generate_bases_LDA')
-  rep.analysed(f)
+  f0 = repo.get_func('scml.SCML_Supervised._generate_bases_LDA')
+  rep.analysed(f0)
+  lroles = {}
+  for r_ in ast.walk(f0.node):
+    if isinstance(r_, ast.Return) and isinstance(r_.value, ast.Tuple) and \
+            r_.value.elts and isinstance(r_.value.elts[0], ast.Name):
+      lroles[r_.value.elts[0].id] = 'basis'
+  f = astutil.role_view(f0, lroles)
   stores = [n for n in ast.walk(f.node) if isinstance(n, ast.Assign) and
             isinstance(n.targets[0], ast.Subscript) and
             ast.unparse(n.targets[0].value) == 'basis']
@@ -237,7 +353,7 @@ def rule_update_formulas(repo, rep):
            'ada <- sqrt(ada^2 + g^2); scale -(t + 1) / (gamma (delta + ada)); '
            'w = scale * min(avg + beta, 0); sub-gradient = sum of the violated '
            'rows / batch_size (reference frozen from the documented scheme)')
-  f = repo.get_func('scml._BaseSCML._fit')
+  _f0, f = _fit_view(repo)
   loops = [n for n in ast.walk(f.node) if isinstance(n, ast.For) and
            ast.unparse(n.iter) == 'range(self.max_iter)']
   if len(loops) != 1:
